@@ -22,7 +22,22 @@ func NewLinearHist(min, max float64, nbins int) *LinearHist {
 }
 
 func (h *LinearHist) bin(x float64) int {
-	return int(math.Floor(h.delta * (x - h.min)))
+	return clampBin(math.Floor(h.delta*(x-h.min)), len(h.bins))
+}
+
+// clampBin converts a bin position to an int, mapping everything
+// below 0 (and NaN) to -1 and everything from nbins up to nbins.
+// Converting a float64 beyond the range of int directly is
+// implementation-defined (the most negative int on amd64), which
+// would count a sample far above the range as below it.
+func clampBin(b float64, nbins int) int {
+	if !(b >= 0) {
+		return -1
+	}
+	if b >= float64(nbins) {
+		return nbins
+	}
+	return int(b)
 }
 
 func (h *LinearHist) Add(x float64) {
